@@ -586,3 +586,162 @@ pub fn configs_c06(tier: crate::registry::Tier, seed: u64) -> Vec<crate::registr
     }
     v
 }
+
+// =================================================================================== C18 (auxiliary, link level)
+
+/// Link-level facts of C18 compared against an independent reference (orientation walk, union-find on the strand relation,
+/// circle counts of resolutions, permutation cycles of a braid). There is no scalar to symbolise here: the obligations are
+/// concrete; they ride on the same runner (one class per diagram) and are reported as an auxiliary, NOT solver-decided part.
+pub struct LinkFacts {
+    pub name: String,
+    pub pd: Pd,
+    pub braid: Option<(usize, Vec<i32>)>,
+}
+
+impl Harness for LinkFacts {
+    fn id(&self) -> String {
+        format!("linkfacts/{}", self.name)
+    }
+    fn functions(&self) -> Vec<&'static str> {
+        vec!["Link::{from_pd_code,components,crossing_signs,signed_crossing_nums,writhe,mirror,resolved_by,crossing_num,is_knot,seifert_circles}", "Braid::closure", "Path::{edges,is_circle}"]
+    }
+    fn inputs(&self) -> Vec<InputSpec> {
+        vec![InputSpec::range("unit", 1, 1)]
+    }
+    fn body<I: VInt>(&self, _xs: &[I])
+    where
+        for<'x> &'x I: VIntOps<I>,
+    {
+        let pd = &self.pd;
+        let n = pd.len();
+        let l = Link::from_pd_code(pd.clone());
+        // ---- components: orbits of the strand-through-crossing relation, partition of the edge set
+        let mut labels: Vec<usize> = pd.iter().flat_map(|x| x.iter().cloned()).collect();
+        labels.sort();
+        labels.dedup();
+        let idx: BTreeMap<usize, usize> = labels.iter().enumerate().map(|(i, &e)| (e, i)).collect();
+        let mut parent: Vec<usize> = (0..labels.len()).collect();
+        fn find(p: &mut Vec<usize>, x: usize) -> usize {
+            let mut x = x;
+            while p[x] != x {
+                p[x] = p[p[x]];
+                x = p[x];
+            }
+            x
+        }
+        for x in pd {
+            for (a, b) in [(0, 2), (1, 3)] {
+                let (ra, rb) = (find(&mut parent, idx[&x[a]]), find(&mut parent, idx[&x[b]]));
+                if ra != rb {
+                    parent[ra] = rb;
+                }
+            }
+        }
+        let mut classes: BTreeMap<usize, std::collections::BTreeSet<usize>> = BTreeMap::new();
+        for (i, &e) in labels.iter().enumerate() {
+            let r = find(&mut parent, i);
+            classes.entry(r).or_default().insert(e);
+        }
+        let want: std::collections::BTreeSet<std::collections::BTreeSet<usize>> = classes.into_values().collect();
+        let comps = l.components();
+        let got: std::collections::BTreeSet<std::collections::BTreeSet<usize>> = comps.iter().map(|c| c.edges().iter().cloned().collect()).collect();
+        I::oblige(&format!("components are the orbits of the strand relation ({} vs {})", got.len(), want.len()), VF::of_bool(got == want && comps.len() == want.len()));
+        I::oblige("components partition the edge set", VF::of_bool(comps.iter().map(|c| c.edges().len()).sum::<usize>() == labels.len()));
+        I::oblige("is_knot", VF::of_bool(l.is_knot() == (want.len() == 1)));
+        I::oblige("crossing_num", VF::of_bool(l.crossing_num() == n));
+        // ---- signs: those of an orientation consistent with the under-strand directions
+        let (p, m) = l.signed_crossing_nums();
+        let free = khref::signed_crossings_choice(pd, false, 0).map(|x| x.2);
+        match free {
+            None => I::oblige("reference orientation exists", VF::False),
+            Some(free) => {
+                let ok = (0..(1usize << free)).any(|ch| khref::signed_crossings_choice(pd, false, ch).map(|x| (x.0, x.1)) == Some((p, m)));
+                I::oblige(&format!("signed crossing numbers ({},{}) are those of an admissible orientation", p, m), VF::of_bool(ok));
+            }
+        }
+        I::oblige("writhe = n+ - n-", VF::of_bool(l.writhe() == p as i32 - m as i32));
+        let (mp, mm) = l.mirror().signed_crossing_nums();
+        I::oblige("mirror negates the signs", VF::of_bool((mp, mm) == (m, p) && l.mirror().writhe() == -l.writhe()));
+        // renumbering / reordering do not change the signed crossing numbers (for diagrams whose orientation is determined)
+        if free == Some(0) {
+            for (what, q) in [("renumbered", renumber(pd, 3)), ("reordered", reorder(pd, 1)), ("rotated", (0..n).map(|i| pd[(i + n / 2 + 1) % n.max(1)]).collect::<Pd>())] {
+                let l2 = Link::from_pd_code(q);
+                I::oblige(&format!("{}: signed crossing numbers unchanged", what), VF::of_bool(l2.signed_crossing_nums() == (p, m)));
+                I::oblige(&format!("{}: number of components unchanged", what), VF::of_bool(l2.components().len() == want.len()));
+            }
+        }
+        // ---- every resolution is a crossingless diagram with the right number of circles
+        if n <= 7 {
+            for bits in 0..(1usize << n) {
+                let state: Vec<bool> = (0..n).map(|i| (bits >> i) & 1 == 1).collect();
+                let s = yui_link::State::from_iter(state.iter().map(|&b| b as u8));
+                let r = l.resolved_by(&s);
+                let c = r.components();
+                I::oblige(&format!("resolution {:?}: circle count", bits), VF::of_bool(c.len() == khref::circles(pd, &state, false).len() && c.iter().all(|x| x.is_circle())));
+                I::oblige(&format!("resolution {:?}: no crossing left", bits), VF::of_bool(r.crossing_num() == 0));
+            }
+            // multi-step: resolve one crossing first, then the rest by a state of length n-1
+            if n >= 2 && n <= 4 {
+                for k in 0..n {
+                    for first in [false, true] {
+                        let part = l.resolved_at(k, yui::bitseq::Bit::from(first));
+                        for bits in 0..(1usize << (n - 1)) {
+                            let rest: Vec<bool> = (0..n - 1).map(|i| (bits >> i) & 1 == 1).collect();
+                            let mut full: Vec<bool> = rest.clone();
+                            full.insert(k, first);
+                            let r = part.resolved_by(&yui_link::State::from_iter(rest.iter().map(|&b| b as u8)));
+                            I::oblige(&format!("partial resolution at {} then {:?}: crossingless with the right circle count", k, bits),
+                                VF::of_bool(r.crossing_num() == 0 && r.components().len() == khref::circles(pd, &full, false).len()));
+                        }
+                    }
+                }
+            }
+            // Seifert circles = circles of the orientation-preserving resolution
+            if free == Some(0) {
+                I::oblige("seifert circles: count of the oriented resolution", VF::of_bool(l.seifert_circles().len() == l.resolved_by(&l.ori_pres_state()).components().len()));
+            }
+        }
+        // ---- braid closure
+        if let Some((strands, word)) = &self.braid {
+            let mut perm: Vec<usize> = (0..*strands).collect();
+            for g in word {
+                let i = g.unsigned_abs() as usize - 1;
+                perm.swap(i, i + 1);
+            }
+            let mut seen = vec![false; *strands];
+            let mut cycles = 0;
+            for s in 0..*strands {
+                if !seen[s] {
+                    cycles += 1;
+                    let mut t = s;
+                    while !seen[t] {
+                        seen[t] = true;
+                        t = perm[t];
+                    }
+                }
+            }
+            I::oblige(&format!("closure: components = cycles of the braid permutation ({})", cycles), VF::of_bool(want.len() == cycles && comps.len() == cycles));
+            I::oblige("closure: crossings = letters", VF::of_bool(n == word.len()));
+            I::oblige("closure: writhe = exponent sum", VF::of_bool(l.writhe() == word.iter().map(|g| g.signum()).sum::<i32>()));
+        }
+    }
+}
+
+pub fn configs_c18(tier: crate::registry::Tier, seed: u64) -> Vec<crate::registry::Entry> {
+    use crate::registry::{entry, Tier};
+    let th = tier == Tier::Thorough;
+    let mut v = Vec::new();
+    for (name, pd) in khref::catalogue().into_iter().chain(khref::over_only_catalogue()).chain(khref::big_catalogue()).chain(if th { khref::cycle_catalogue() } else { vec![] }) {
+        v.push(entry(LinkFacts { name: name.to_string(), pd: pd.clone(), braid: None }, 3, 60.0));
+        v.push(entry(LinkFacts { name: format!("{}~renumbered", name), pd: renumber(&pd, seed as usize), braid: None }, 3, 60.0));
+    }
+    v.push(entry(LinkFacts { name: "trefoil~R1".into(), pd: r1(&trefoil(), 1 + seed as usize % 6, seed as usize), braid: None }, 3, 60.0));
+    let words: Vec<(usize, Vec<i32>)> = vec![
+        (2, vec![1, 1, 1]), (2, vec![-1, -1]), (3, vec![1, -2, 1, -2]), (3, vec![1, 1, 1, -2]), (3, vec![1, 2, 1, 2]), (4, vec![1, 2, 3, 3, 3]), (4, vec![1, 3, 2, -1]), (4, vec![1, -2, 3, -2, 1]), (3, vec![2, 1]), (3, vec![2, 1, 2, 1]), (4, vec![3, 2, 1]),
+        (5, vec![1, 2, 3, 4, 4]), (8, vec![1, 2, 3, 4, 5, 6, 7, 7, 7]),
+    ];
+    for (s, w) in words {
+        v.push(entry(LinkFacts { name: format!("braid{}{:?}", s, w), pd: braid_pd(s, &w), braid: Some((s, w.clone())) }, 3, 60.0));
+    }
+    v
+}
